@@ -57,8 +57,19 @@ def _(self, decoder: Obj("Decoder")):
     raises(NotImplementedError)
     assigns(decoder)
     ensures(decoder.number_of_bits <= old(decoder.number_of_bits))
+    # exact consumption per addition (since the F10 repair): a present addition -- known to this version or not, empty
+    # or not -- takes its length determinant plus exactly the announced number of octets; an absent one takes nothing.
+    # g_prev / g_size: read position at the start of the current round and the size that round must consume.
+    ghost_init(g_prev=0, g_size=0)
+    at_stmt("@loop0", set=dict(g_prev=decoder.number_of_bits, g_size=0))
+    at_stmt("@if0", set=dict(g_prev=decoder.number_of_bits,
+                             g_size=(ld_size(decoder.value, decoder.total_number_of_bits - decoder.number_of_bits)
+                                     + 8 * ld_val(decoder.value, decoder.total_number_of_bits - decoder.number_of_bits)
+                                     if presence_bits & (1 << (length - i - 1)) else 0)))
     loop(0, invariant=[decoder.number_of_bits <= at_entry(decoder.number_of_bits, 0),
-                       decoder.total_number_of_bits == old(decoder.total_number_of_bits)])
+                       decoder.total_number_of_bits == old(decoder.total_number_of_bits),
+                       decoder.value == old(decoder.value),
+                       decoder.number_of_bits == g_prev - g_size])
 
 
 fields("PermittedAlphabet", encode_map=Map('int', Nat), decode_map=Map('int', Nat))
